@@ -467,7 +467,7 @@ impl Machine {
         self.nsteps += 1;
         let name = op.op.as_str();
         let (mut x, mut y) = (x, y);
-        let uses_o = name == "m_unsplit" || name == "b_clone_from" || (name == "b_slice_ref" && op.mode == 3);
+        let uses_o = name == "m_unsplit" || name == "b_clone_from" || name == "m_clone_from" || (name == "b_slice_ref" && op.mode == 3);
         if uses_o && (op.o == h || self.hs.get(op.o).map(|x| x.is_none()).unwrap_or(true)) {
             self.evno -= 1;
             return false;
@@ -696,6 +696,20 @@ impl Machine {
                         t.clone_from(s);
                     }
                     self.hs[h] = Some(H::B(t));
+                }
+                "m_clone_from" => {
+                    // Clone::clone_from for BytesMut: the target takes the source's contents (its own buffer or a new one)
+                    if op.o == h || !matches!(self.hs.get(op.o).and_then(|x| x.as_ref()), Some(H::M(_))) {
+                        return Err(());
+                    }
+                    let mut t = match self.hs[h].take().unwrap() {
+                        H::M(m) => m,
+                        _ => unreachable!(),
+                    };
+                    if let Some(H::M(s)) = self.hs[op.o].as_ref() {
+                        t.clone_from(s);
+                    }
+                    self.hs[h] = Some(H::M(t));
                 }
                 "b_slice" => {
                     let c = match self.hs[h].as_ref().unwrap() {
@@ -1259,7 +1273,8 @@ fn main() {
     // runs, the driver restarts us with --start.
     if random {
         for p in start..nprog {
-            let par = par_override.unwrap_or((p % 2) as u8);
+            // (every 7th program: even byte-buffer addresses that are not multiples of 4 or 8)
+            let par = par_override.unwrap_or(if p % 7 == 3 { 3 } else { (p % 2) as u8 });
             // every 5th program runs under adjacent placement with an op mix biased towards
             // buffers that touch each other (try_unsplit's pointer test, slice_ref's range test)
             let adjacent = adj_every > 0 && p % adj_every == adj_every - 1;
